@@ -625,6 +625,80 @@ async def scenario_send_audio(n, mode):
     return {"result": res, "hit": plan.hit, "calls": plan.count, "leaks": leaks}
 
 
+# -- StreamClient.initialize (what stream_file runs between setup() and send_audio) -----------------------
+
+async def scenario_initialize(n, mode, model="AppleTV"):
+    """Real StreamClient.initialize with a failure / cancellation at each collaborator; afterwards the
+    owner's clean-up (RaopPlaybackManager.teardown -> StreamClient.close) runs and no UDP endpoint the
+    client opened may be left."""
+    from pyatv.protocols.raop.stream_client import StreamClient
+    from pyatv.protocols.raop.protocols import StreamContext
+    from pyatv.settings import Settings
+
+    plan = FaultPlan(n, mode)
+    state = {"udp_open": 0, "proto_torn_down": 0}
+
+    class Sock:
+        def getsockname(self):
+            return ("127.0.0.1", 6000)
+
+    class Transport:
+        def __init__(self):
+            self.closed = False
+
+        def close(self):
+            if not self.closed:
+                self.closed = True
+                state["udp_open"] -= 1
+
+        def get_extra_info(self, name, default=None):
+            return Sock()
+
+        def sendto(self, *a):
+            pass
+
+    class Loop:
+        async def create_datagram_endpoint(self, factory, **k):
+            await plan.tick("loop.create_datagram_endpoint")
+            proto = factory()
+            tr = Transport()
+            state["udp_open"] += 1
+            proto.connection_made(tr)
+            return tr, proto
+
+    class ConnInfo:
+        local_ip = remote_ip = "127.0.0.1"
+
+    class Rtsp:
+        connection = ConnInfo()
+
+        async def info(self):
+            await plan.tick("rtsp.info")
+            return {}
+
+        async def auth_setup(self):
+            await plan.tick("rtsp.auth_setup")
+
+    class Proto:
+        async def setup(self, timing_port, control_port):
+            await plan.tick("protocol.setup")
+
+        def teardown(self):
+            state["proto_torn_down"] += 1
+
+    client = StreamClient(Rtsp(), StreamContext(), Proto(), Settings())
+    client.loop = Loop()
+    props = {"et": "0,1", "md": "0,1,2", "am": model, "sr": "44100", "ch": "2", "ss": "16"}
+    res = await run_with_plan(plan, lambda: client.initialize(props))
+    client.close()          # what the playback manager's teardown does after a failed stream_file
+    leaks = []
+    if state["udp_open"] != 0:
+        leaks.append("%d UDP endpoint(s) of the stream client left open" % state["udp_open"])
+    if state["proto_torn_down"] == 0:
+        leaks.append("protocol not torn down")
+    return {"result": res, "hit": plan.hit, "calls": plan.count, "leaks": leaks}
+
+
 # -- connect ---------------------------------------------------------------------------------------------
 
 async def scenario_connect(subset, fail_at, fail_kind):
@@ -969,6 +1043,19 @@ def run(ctx):
             if r["leaks"]:
                 ctx.violation(leak_key("send_audio", r["leaks"], r["hit"]), "send_audio: " + "; ".join(r["leaks"]),
                               {"op": "send_audio", "fault": mode, "nth_call": n, "at": r["hit"], "observed": r})
+    for model in ("AppleTV", "AirPort10,115"):
+        base = vloop.run(scenario_initialize, 0, "exn", model)
+        if base["leaks"] or base["result"] != "ok":
+            ctx.violation("C18:initialize:fault-free-run", "fault-free StreamClient.initialize + close leaks or fails", {"op": "initialize", "model": model, "observed": base})
+        for n in range(1, base["calls"] + 1):
+            for mode in ("exn", "cancel"):
+                r = vloop.run(scenario_initialize, n, mode, model)
+                ctx.case(("initialize", model, n, mode), nontrivial=r["hit"] is not None,
+                         sample={"op": "StreamClient.initialize", "fault": mode, "at": r["hit"], "result": r["result"], "leaks": r["leaks"]} if n == 2 else None)
+                ctx.count("initialize:" + mode)
+                if r["leaks"]:
+                    ctx.violation("C18:initialize:leak-at-%s-%d" % (r["hit"], n), "StreamClient.initialize: " + "; ".join(r["leaks"]),
+                                  {"op": "initialize", "model": model, "fault": mode, "nth_call": n, "at": r["hit"], "observed": r})
     protos = [Protocol.MRP, Protocol.DMAP, Protocol.Companion, Protocol.AirPlay, Protocol.RAOP]
     for k in range(1, 6):
         for subset in itertools.combinations(protos, k):
@@ -1005,6 +1092,8 @@ def replay(ctx, path):
         out = vloop.run(scenario_stream_file, r["nth_call"], r["fault"], r["variant"])
     elif op == "play_url":
         out = vloop.run(scenario_play_url, r["nth_call"], r["fault"], r["local"])
+    elif op == "initialize":
+        out = vloop.run(scenario_initialize, r["nth_call"], r["fault"], r["model"])
     elif op == "play_url_refused":
         out = vloop.run(scenario_play_url, 0, "exn", r["local"], True)
     elif op == "stream_overlap":
